@@ -361,7 +361,7 @@ Section Tok.
           split; [reflexivity|]. exists r. reflexivity.
         * cbn [last]. intros lt' [= <-]. lia.
       + destruct (t_start t <? o) eqn:Elt.
-        * destruct (truthy lt && kind_eqb (t_kind t) KCitation && nominative lt).
+        * destruct (truthy lt && kind_eqb (t_kind t) KCitation && (t_end lt <? t_end t) && nominative lt).
           -- cbn [tl]. apply emit_inv; assumption.
           -- split.
              ++ unfold inv. cbn [all_rev cits_rev last off].
